@@ -334,6 +334,11 @@ func runOnce(c Case) Result {
 			}
 			noProgress := time.Since(lastProgressAt) > StallQuiet
 			if noProgress {
+				// (the same allowance for stacked faults as for wire silence: the sender's
+				// timer has doubled with every loss of the exchange)
+				noProgress = time.Since(lastProgressAt) > quietNeeded(p.W.Events())
+			}
+			if noProgress {
 				// only counts if the wire carried nothing but empty segments meanwhile
 				for _, e := range p.W.Events() {
 					if e.T.After(lastProgressAt) && e.Pkt.L4Kind == "tcp" && (len(e.Pkt.Payload) > 0 || e.Pkt.Flags&(codec.SYN|codec.FIN|codec.RST) != 0) {
